@@ -106,7 +106,7 @@ func specSameQuota(ue *chf_context.ChfUe, old map[int32]int64) bool {
 // slices the function creates itself are not separated from pre-existing arrays by the loop havoc.
 //@ func sessionChargingReservation [C09 C11 C12]
 //@   requires verif_held(&specUe(chargingData).CULock)
-//@   requires [C20] factory.ChfConfig != nil && factory.ChfConfig.Configuration != nil && factory.ChfConfig.Configuration.RfDiameter != nil && factory.ChfConfig.Configuration.RfDiameter.Tls != nil && factory.ChfConfig.Configuration.AbmfDiameter != nil && factory.ChfConfig.Configuration.AbmfDiameter.Tls != nil
+//@   requires [C20] factory.SpecValidated(factory.ChfConfig)
 //@   requires [C20] chf_context.GetSelf().AbmfCfg != nil && chf_context.GetSelf().RatingCfg != nil
 //@   modifies mapof(specUe(chargingData).ReservedQuota), mapof(specUe(chargingData).UnitCost), mapof(specUe(chargingData).AcctRequestNum), mapof(specUe(chargingData).RatingType), field(specUe(chargingData), RatingGroups)
 //@   modifies global(&abmf.GhostRequests), global(&rating.GhostRequests), mapof(abmf.GhostBalance), global(&abmf.GhostFailed), global(&rating.GhostFailed)
@@ -125,7 +125,7 @@ func specSameQuota(ue *chf_context.ChfUe, old map[int32]int64) bool {
 // subscriber lock is free again on every path (lock obligation).
 //@ func (*Processor).ChargingDataRelease [C09 C10 C11 C12]
 //@   entry
-//@   requires [C20] factory.ChfConfig != nil && factory.ChfConfig.Configuration != nil && factory.ChfConfig.Configuration.RfDiameter != nil && factory.ChfConfig.Configuration.RfDiameter.Tls != nil && factory.ChfConfig.Configuration.AbmfDiameter != nil && factory.ChfConfig.Configuration.AbmfDiameter.Tls != nil
+//@   requires [C20] factory.SpecValidated(factory.ChfConfig)
 //@   requires [C20] chf_context.GetSelf().AbmfCfg != nil && chf_context.GetSelf().RatingCfg != nil
 //@   ensures result != nil ==> result.Status >= 400 && result.Status < 500
 //@   ensures old(specUe(chargingData).Cdr[chargingSessionId]) == nil ==> result != nil
@@ -140,7 +140,7 @@ func specSameQuota(ue *chf_context.ChfUe, old map[int32]int64) bool {
 // partial record that continues it, which then is what the reference designates).
 //@ func (*Processor).ChargingDataUpdate [C09 C10 C11 C12]
 //@   entry
-//@   requires [C20] factory.ChfConfig != nil && factory.ChfConfig.Configuration != nil && factory.ChfConfig.Configuration.RfDiameter != nil && factory.ChfConfig.Configuration.RfDiameter.Tls != nil && factory.ChfConfig.Configuration.AbmfDiameter != nil && factory.ChfConfig.Configuration.AbmfDiameter.Tls != nil
+//@   requires [C20] factory.SpecValidated(factory.ChfConfig)
 //@   requires [C20] chf_context.GetSelf().AbmfCfg != nil && chf_context.GetSelf().RatingCfg != nil
 //@   ensures (result0 != nil) == (result1 == nil)
 //@   ensures result1 != nil ==> result1.Status >= 400 && result1.Status < 500
@@ -220,7 +220,7 @@ func verifLemmaMul32(a, b uint32) uint64 { return uint64(a * b) }
 // @   bounded one multiple-unit-usage entry with one online-charging used-unit container and no trigger (loops unrolled); balances, reservation, tariff, volumes and rating mode unbounded within the 32-bit range of the Diameter money AVPs
 // @   inline-calls sessionChargingReservation
 // @   requires verif_held(&specUe(req).CULock)
-// @   requires factory.ChfConfig != nil && factory.ChfConfig.Configuration != nil && factory.ChfConfig.Configuration.RfDiameter != nil && factory.ChfConfig.Configuration.RfDiameter.Tls != nil && factory.ChfConfig.Configuration.AbmfDiameter != nil && factory.ChfConfig.Configuration.AbmfDiameter.Tls != nil
+// @   requires factory.SpecValidated(factory.ChfConfig)
 // @   requires chf_context.GetSelf().AbmfCfg != nil && chf_context.GetSelf().RatingCfg != nil
 // @   requires len(req.MultipleUnitUsage) == 1 && len(req.MultipleUnitUsage[0].UsedUnitContainer) == 1 && len(req.Triggers) == 0
 // @   requires req.MultipleUnitUsage[0].UsedUnitContainer[0].QuotaManagementIndicator == models.QuotaManagementIndicator_ONLINE_CHARGING
@@ -258,7 +258,7 @@ func verifLemmaReservationStep(req models.ChfConvergedChargingChargingDataReques
 // side): for an integer tariff (exponent 0) the decoded value is the stored unit cost.
 //@ func getUnitCost [C08 C01 C06]
 //@   requires ue != nil && ue.RatingClient != nil
-//@   requires [C20] factory.ChfConfig != nil && factory.ChfConfig.Configuration != nil && factory.ChfConfig.Configuration.RfDiameter != nil && factory.ChfConfig.Configuration.RfDiameter.Tls != nil
+//@   requires [C20] factory.SpecValidated(factory.ChfConfig)
 //@   ensures sur != nil && !rating.GhostFailed ==> result == rating.GhostUnitCost[uint32(rg)]
 //@   show rating.GhostUnitCost[uint32(rg)]
 //@   modifies field(sur, ServiceRating), field(sur, DestinationRealm), field(sur, DestinationHost), global(&rating.GhostRequests), global(&rating.GhostFailed)
